@@ -233,7 +233,7 @@ PROPS = {
     },
 }
 
-DEV = ["c20_bc_member_limit_3","c20_bc_member_limit_5","d_feed_upd_tight","d_gossip_upd_never","d_ping_upd_never"]
+DEV = ["d_ack_custom2","d_fwd_ack_2","c06_timer_crafted_suspect"]
 PROPS["DEV"] = {"level": "model_checking", "harnesses": [H(n, engine=("bcast" if n.startswith("bc_") else "codec" if n.startswith("c20_") or n.startswith("c06_config") else "incrate")) for n in DEV]}
 
 HOOK_COMMITS = ["2dd5aa0"]
